@@ -110,11 +110,14 @@ fn dynamically_format_decimal(
     // the upper and lower thresholds of the decimal,
     // and precision was not requested
     if f.precision().is_none() && leading_zero_threshold < leading_zero_count {
+        verif_probe!(Fmt_Exponential);
         format_exponential(this, f, abs_int, "E")
     } else if trailing_zero_threshold < trailing_zeros {
         // non-scientific notation
+        verif_probe!(Fmt_Dotless);
         format_dotless_exponential(f, abs_int, this.sign, this.scale, "e")
     } else {
+        verif_probe!(Fmt_FullScale);
         format_full_scale(this, f, abs_int)
     }
 }
@@ -126,6 +129,7 @@ impl fmt::Display for FullScaleFormatter<'_> {
     fn fmt(&self, f: &mut fmt::Formatter<'_>) -> fmt::Result {
         let n = self.0;
         let non_negative = matches!(n.sign, Sign::Plus | Sign::NoSign);
+        verif_probe!(Fmt_Plain);
 
         let mut digits = n.digits.to_string();
 
@@ -224,6 +228,7 @@ fn zero_right_pad_integer_ascii_digits(
     // implicitly right-pad if less than this threshold.
     if target_scale.is_none() && integer_zero_count > 20 {
         // no padding
+        verif_probe!(Fmt_IntPadImplicitSkip);
         return;
     }
 
@@ -247,8 +252,10 @@ fn zero_right_pad_integer_ascii_digits(
 
     // no padding if out of bounds
     if total_additional_zeros > FMT_MAX_INTEGER_PADDING {
+        verif_probe!(Fmt_IntPadLimit);
         return;
     }
+    verif_probe!(Fmt_IntPad);
 
     digits.resize(digits.len() + total_additional_zeros, b'0');
     if let Some(decimal_place_idx) = decimal_place_idx {
@@ -271,6 +278,7 @@ fn format_ascii_digits_with_integer_and_fraction(
     rounder: NonDigitRoundingData,
 ) {
     debug_assert!(scale < digits_ascii_be.len() as u64, "No integer digits");
+    verif_probe!(Fmt_WithInteger);
     let mut digit_scale = scale;
 
     // decimal has more fractional digits than requested: round (trimming insignificant digits)
@@ -339,6 +347,7 @@ fn format_ascii_digits_no_integer(
     match arithmetic::diff(target_scale, leading_zeros) {
         // handle rounding point before the start of digits
         (Less, intermediate_zeros) | (Equal, intermediate_zeros)  => {
+            verif_probe!(Fmt_NoInteger_RoundBeforeDigits);
             // get insignificant digit
             let (insig_digit, trailing_digits) = if intermediate_zeros > 0 {
                 (0, digits_ascii_be.as_slice())
@@ -366,6 +375,7 @@ fn format_ascii_digits_no_integer(
             }
         }
         (Greater, sig_digit_count) => {
+            verif_probe!(Fmt_NoInteger_Sig);
             let significant_digit_count = sig_digit_count
                                           .to_usize()
                                           .and_then(NonZeroUsize::new)
@@ -592,6 +602,7 @@ fn round_ascii_digits(
 
     if rounded_digit < 10 {
         // simple case: no carrying/overflow, push rounded digit
+        verif_probe!(Fmt_RoundNoCarry);
         digits_ascii_be.push(rounded_digit + b'0');
         return removed_digit_count;
     }
@@ -604,6 +615,7 @@ fn round_ascii_digits(
     match next_non_nine_rev_pos {
         // number of nines to remove
         Some(backwards_nine_count) => {
+            verif_probe!(Fmt_RoundCarry);
             let digits_to_trim = backwards_nine_count + 1;
             let idx = digits_ascii_be.len() - digits_to_trim;
             // increment least significant non-nine zero
@@ -615,6 +627,7 @@ fn round_ascii_digits(
         }
         // all nines! overflow to 1.000
         None => {
+            verif_probe!(Fmt_RoundAllNines);
             digits_ascii_be.clear();
             digits_ascii_be.push(b'1');
             // count digit clearning
@@ -629,6 +642,7 @@ fn round_ascii_digits(
 
 #[inline(never)]
 pub(crate) fn write_scientific_notation<W: Write>(n: &BigDecimal, w: &mut W) -> fmt::Result {
+    verif_probe!(Fmt_Sci);
     if n.is_zero() {
         return w.write_str("0e0");
     }
@@ -652,6 +666,7 @@ pub(crate) fn write_scientific_notation<W: Write>(n: &BigDecimal, w: &mut W) -> 
 
 #[inline(never)]
 pub(crate) fn write_engineering_notation<W: Write>(n: &BigDecimal, out: &mut W) -> fmt::Result {
+    verif_probe!(Fmt_Eng);
     if n.is_zero() {
         return out.write_str("0e0");
     }
